@@ -205,4 +205,40 @@ theorem expected_last (cfg : Cfg) (dec : Bool) : ∀ (ss : List Sentence) (acc :
         rw [List.getLast?_cons_cons, this]
         simp [List.append_assoc]
 
+/-! ### The same, for the lines themselves -/
+
+/-- Lines that the sentence layer accepts (well-formed, checksum matching — `C06.classify`) are
+    processed exactly as their sentences. -/
+theorem run_eq_runS (cfg : Cfg) (dec : Bool) :
+    ∀ (lines : List Bytes) (ss : List Sentence) (st : PState),
+      lines.map (C06.classify cfg) = ss.map some → run cfg dec st lines = runS cfg dec st ss := by
+  intro lines
+  induction lines with
+  | nil =>
+    intro ss st h
+    cases ss with
+    | nil => rfl
+    | cons a b => simp at h
+  | cons l ls ih =>
+    intro ss st h
+    cases ss with
+    | nil => simp at h
+    | cons s ss' =>
+      simp only [List.map_cons, List.cons.injEq] at h
+      obtain ⟨raw, cks, hp, hc⟩ := C06.classify_some h.1
+      simp only [run, runS]
+      rw [C17.step_of_parse cfg st l raw s cks dec hp hc, ih ss' _ h.2]
+
+/-- **C05 on lines.** Any `n ≥ 2` accepted lines that number themselves 1…n of n with one sequence id,
+    fed in order to a parser in *any* state, give `expected`: Incomplete (own fields) … Complete
+    (exact concatenation, decoded like the unfragmented payload); the parser ends with no open group. -/
+theorem in_order_reassembly_lines (cfg : Cfg) (dec : Bool) (st : PState) (id : Option Nat)
+    (l1 : Bytes) (ls : List Bytes) (s1 : Sentence) (rest : List Sentence)
+    (hcl : (l1 :: ls).map (C06.classify cfg) = (s1 :: rest).map some)
+    (hne : rest ≠ []) (hnum : Numbered (rest.length + 1) id 0 (s1 :: rest))
+    (hfit : fits (capOf cfg) (total (s1 :: rest))) :
+    run cfg dec st (l1 :: ls) = (expected cfg dec [] (s1 :: rest), ⟨none, 0, []⟩) := by
+  rw [run_eq_runS cfg dec _ _ st hcl]
+  exact in_order_reassembly cfg dec st id s1 rest hne hnum hfit
+
 end AisVerif.C05
